@@ -22,6 +22,7 @@ type connCase struct {
 	RouteA int      `json:"route_a"`
 	NodeB  int      `json:"node_b"`
 	AccB   int      `json:"acc_b"`
+	PrevB  int      `json:"prev_b,omitempty"` // B's network ran with this node cookie first and was restarted (NetworkStop / NetworkStart) with node_b
 	Tags   []string `json:"tags,omitempty"`
 }
 
@@ -68,9 +69,22 @@ func hasNode(n gen.Node, peer gen.Atom, want bool) bool {
 func execConn(c connCase) (bool, bool) {
 	ob := gen.NodeOptions{}
 	ob.Network.Cookie = cookieStrings[c.NodeB]
+	if c.PrevB != 0 {
+		ob.Network.Cookie = cookieStrings[c.PrevB]
+	}
 	ob.Network.Acceptors = []gen.AcceptorOptions{{Cookie: cookieStrings[c.AccB]}}
 	b := startNode("cb", ob)
 	defer b.StopForce()
+	if c.PrevB != 0 {
+		// the node's network is restarted with another cookie: the endpoint in use is the one of the running network
+		if err := b.NetworkStop(); err != nil {
+			panic(err)
+		}
+		no := gen.NetworkOptions{Cookie: cookieStrings[c.NodeB], Acceptors: []gen.AcceptorOptions{{Cookie: cookieStrings[c.AccB]}}}
+		if err := b.NetworkStart(no); err != nil {
+			panic(err)
+		}
+	}
 	oa := gen.NodeOptions{}
 	oa.Network.Cookie = cookieStrings[c.NodeA]
 	a := startNode("ca", oa)
@@ -102,11 +116,19 @@ func runConn(n int, out, replay string) {
 		r := util.Rng(19)
 		r.Shuffle(len(all), func(i, j int) { all[i], all[j] = all[j], all[i] })
 		// the combinations that separate the selection functions come first
-		cases = append(cases, connCase{1, 0, 1, 0, nil}, connCase{1, 0, 2, 1, nil}, connCase{1, 0, 1, 3, nil}, connCase{1, 3, 2, 3, nil},
-			connCase{1, 2, 2, 0, nil}, connCase{1, 2, 1, 0, nil}, connCase{2, 1, 1, 0, nil}, connCase{1, 0, 2, 0, nil})
-		for _, c := range all {
+		cases = append(cases, connCase{1, 0, 1, 0, 0, nil}, connCase{1, 0, 2, 1, 0, nil}, connCase{1, 0, 1, 3, 0, nil}, connCase{1, 3, 2, 3, 0, nil},
+			connCase{1, 2, 2, 0, 0, nil}, connCase{1, 2, 1, 0, 0, nil}, connCase{2, 1, 1, 0, 0, nil}, connCase{1, 0, 2, 0, 0, nil},
+			// the network of B restarted with another node cookie: an acceptor without its own cookie follows the node's CURRENT cookie
+			connCase{1, 0, 1, 0, 2, []string{"network-restarted"}}, connCase{2, 0, 1, 0, 2, []string{"network-restarted"}},
+			connCase{1, 2, 1, 0, 2, []string{"network-restarted"}}, connCase{2, 0, 2, 0, 1, []string{"network-restarted"}},
+			connCase{1, 0, 2, 3, 1, []string{"network-restarted"}}, connCase{1, 3, 2, 3, 1, []string{"network-restarted"}})
+		for i, c := range all {
 			if len(cases) >= n {
 				break
+			}
+			if i%3 == 2 {
+				c.PrevB = 3 - c.NodeB // the other one of the two node cookies
+				c.Tags = []string{"network-restarted"}
 			}
 			cases = append(cases, c)
 		}
@@ -124,6 +146,9 @@ func runConn(n int, out, replay string) {
 		}
 		if c.RouteA != 0 {
 			o.Stats["route-own-cookie"]++
+		}
+		if c.PrevB != 0 {
+			o.Stats["network-restarted-with-other-cookie"]++
 		}
 	}
 	o.Write(out)
